@@ -84,6 +84,7 @@ fn main() {
     }
     let code = match args[0].as_str() {
         "C01" => dispatch(props::c01::C01, &args),
+        "C02" => dispatch(props::c02::C02, &args),
         "C03" => dispatch(props::c03::C03, &args),
         "C04" => dispatch(props::c04::C04, &args),
         "C05" => dispatch(props::c05::C05, &args),
